@@ -172,6 +172,8 @@ def core_sites(chk):
         def ok(v):
             if isinstance(v, ast.Subscript) and unparse(v.value) == "self.registry":
                 return True
+            if isinstance(v, ast.Call) and isinstance(v.func, ast.Attribute) and v.func.attr == "get" and unparse(v.func.value) == "self.registry":
+                return True
             # looked up by a helper method of the same class
             return isinstance(v, ast.Call) and any(t.cls is gf.cls for t in ctx.targets(gf, v))
         return bool(vals) and all(v is not None and ok(v) for v in vals)
